@@ -1,22 +1,62 @@
 package main
 
 // Inferred frames of summarised callees: for every heap array a function can
-// modify syntactically, the property "locations that existed when the function
-// was entered keep their value" is checked on the function's own body (under
-// its preconditions) and, when proved at every return, used at call sites that
-// summarise the function. Facts are proved, never assumed.
+// modify syntactically, one of two properties is checked on the function's own
+// body (under its preconditions) and, when proved at every return, used at the
+// call sites that summarise the function:
+//   full    locations that existed when the function was entered keep their value
+//   params  the same, except at the objects handed in directly: the receiver and
+//           pointer parameters, the pointers held in struct parameters passed by
+//           value, and the backing arrays of slice parameters
+// Facts are proved, never assumed.
 
 import (
 	"fmt"
+	"go/types"
 	"os"
 	"sort"
+	"strings"
 )
 
-var frameMemo = map[string]map[string]bool{}
+const (
+	frameNone   = 0
+	frameFull   = 1
+	frameParams = 2
+)
+
+var frameMemo = map[string]map[string]int{}
 var frameInProgress = map[string]bool{}
 
-// preservedHeaps returns the heap names for which fi provably preserves pre-existing locations.
-func (ex *Exec) preservedHeaps(fi *FuncInfo) map[string]bool {
+// handedRefs: the references through which a callee may legitimately write (see above).
+func handedRefs(vals []Val) []*Term {
+	var out []*Term
+	for _, v := range vals {
+		cs := flatten(v.T)
+		if len(cs) != len(v.C) {
+			continue
+		}
+		for i, c := range cs {
+			switch c.Kind {
+			case CRef, CArrID, CMap:
+				out = append(out, v.C[i])
+			}
+		}
+		if isIface(v.T) && len(v.C) == 2 {
+			out = append(out, v.C[1])
+		}
+	}
+	return out
+}
+
+func heapGroup(h string) string {
+	if i := strings.LastIndex(h, "."); i > 0 {
+		return h[:i]
+	}
+	return h
+}
+
+// inferredFrames returns, per heap name, the strongest frame fi provably satisfies.
+func (ex *Exec) inferredFrames(fi *FuncInfo) map[string]int {
 	if m, ok := frameMemo[fi.Key]; ok {
 		return m
 	}
@@ -25,7 +65,7 @@ func (ex *Exec) preservedHeaps(fi *FuncInfo) map[string]bool {
 	}
 	frameInProgress[fi.Key] = true
 	defer delete(frameInProgress, fi.Key)
-	out := map[string]bool{}
+	out := map[string]int{}
 	sub := newExec(ex.P, fi)
 	sub.safetyOnly = true
 	sub.noHoudini = ex.noHoudini
@@ -44,6 +84,16 @@ func (ex *Exec) preservedHeaps(fi *FuncInfo) map[string]bool {
 		sub.prepareFunc(fi)
 		st := sub.initState(fi)
 		sub.pre = st.clone()
+		var params []Val
+		for _, p := range sub.paramList(fi) {
+			if v, ok := sub.pre.vars[p]; ok {
+				if sub.boxed[p] {
+					v = sub.pre.loadStruct(v.C[0], p.Type())
+				}
+				params = append(params, v)
+			}
+		}
+		handed := handedRefs(params)
 		if con := fi.Contract; con != nil {
 			sub.instantiateGhostFuns(st, con, sub.fnCtx(sub.pre, nil), sub.ghosts, "fp."+sanitize(fi.Key), true)
 			for i, r := range con.Requires {
@@ -68,6 +118,9 @@ func (ex *Exec) preservedHeaps(fi *FuncInfo) map[string]bool {
 		cand := map[string]bool{}
 		for _, r := range rets {
 			for h, cur := range r.st.heap {
+				if strings.HasPrefix(h, "G$") {
+					continue
+				}
 				if cur != sub.pre.heapGet(h, heapSorts[h]) {
 					cand[h] = true
 				}
@@ -78,51 +131,176 @@ func (ex *Exec) preservedHeaps(fi *FuncInfo) map[string]bool {
 			names = append(names, h)
 		}
 		sort.Strings(names)
-		var goals []*Obligation
-		var owner []string
 		ctr0 := sub.pre.ctr
-		for _, h := range names {
+		sub.Fn = fi
+		goalFor := func(h string, r retOut, mode int) *Term {
 			old := sub.pre.heapGet(h, heapSorts[h])
-			for ri, r := range rets {
-				cur := r.st.heapGet(h, heapSorts[h])
-				if cur == old {
+			cur := r.st.heapGet(h, heapSorts[h])
+			if cur == old {
+				return True
+			}
+			q := BVar("r", SInt)
+			cond := []*Term{Lt(q, ctr0)}
+			if mode == frameParams {
+				for _, p := range handed {
+					cond = append(cond, Neq(q, p))
+				}
+			}
+			return Forall([]*Term{q}, Implies(And(cond...), Eq(Select(cur, q), Select(old, q))))
+		}
+		// prove(names, mode): the heaps (of names) for which the frame holds at every return;
+		// groups of the fields of one struct type are tried together first
+		prove := func(hs []string, mode int) map[string]bool {
+			okm := map[string]bool{}
+			groups := map[string][]string{}
+			var gk []string
+			for _, h := range hs {
+				g := heapGroup(h)
+				if _, ok := groups[g]; !ok {
+					gk = append(gk, g)
+				}
+				groups[g] = append(groups[g], h)
+			}
+			var goals []*Obligation
+			var owner []string
+			for _, g := range gk {
+				for ri, r := range rets {
+					var all []*Term
+					for _, h := range groups[g] {
+						all = append(all, goalFor(h, r, mode))
+					}
+					gl := And(all...)
+					if gl == True {
+						continue
+					}
+					goals = append(goals, &Obligation{Name: fmt.Sprintf("%s#frame-infer[%s.*]#%d", fi.Key, g, ri), Kind: "auto-inv", Func: fi.Key,
+						Facts: append([]*Term(nil), r.st.facts...), Goal: gl, Auto: true})
+					owner = append(owner, g)
+				}
+			}
+			sub.quickSolve(goals)
+			badG := map[string]bool{}
+			for i, g := range goals {
+				if g.Status != "proved" {
+					badG[owner[i]] = true
+				}
+			}
+			var goals2 []*Obligation
+			var owner2 []string
+			for _, g := range gk {
+				if !badG[g] {
+					for _, h := range groups[g] {
+						okm[h] = true
+					}
 					continue
 				}
-				q := BVar("r", SInt)
-				g := Forall([]*Term{q}, Implies(Lt(q, ctr0), Eq(Select(cur, q), Select(old, q))))
-				goals = append(goals, &Obligation{Name: fmt.Sprintf("%s#frame-infer[%s]#%d", fi.Key, h, ri), Kind: "auto-inv", Func: fi.Key,
-					Facts: append([]*Term(nil), r.st.facts...), Goal: g, Auto: true})
-				owner = append(owner, h)
+				if len(groups[g]) == 1 {
+					continue
+				}
+				for _, h := range groups[g] {
+					for ri, r := range rets {
+						gl := goalFor(h, r, mode)
+						if gl == True {
+							continue
+						}
+						goals2 = append(goals2, &Obligation{Name: fmt.Sprintf("%s#frame-infer[%s]#%d", fi.Key, h, ri), Kind: "auto-inv", Func: fi.Key,
+							Facts: append([]*Term(nil), r.st.facts...), Goal: gl, Auto: true})
+						owner2 = append(owner2, h)
+					}
+				}
 			}
-		}
-		sub.Fn = fi
-		sub.quickSolve(goals)
-		bad := map[string]bool{}
-		for i, g := range goals {
-			if g.Status != "proved" {
-				bad[owner[i]] = true
+			sub.quickSolve(goals2)
+			bad := map[string]bool{}
+			for i, g := range goals2 {
+				if g.Status != "proved" {
+					bad[owner2[i]] = true
+				}
 			}
+			for _, g := range gk {
+				if badG[g] && len(groups[g]) > 1 {
+					for _, h := range groups[g] {
+						if !bad[h] {
+							okm[h] = true
+						}
+					}
+				}
+			}
+			return okm
 		}
+		full := prove(names, frameFull)
+		var rest []string
 		for _, h := range names {
-			if !bad[h] {
-				out[h] = true
+			if full[h] {
+				out[h] = frameFull
+			} else {
+				rest = append(rest, h)
+			}
+		}
+		if len(rest) > 0 && len(handed) > 0 {
+			part := prove(rest, frameParams)
+			for _, h := range rest {
+				if part[h] {
+					out[h] = frameParams
+				}
 			}
 		}
 		// heaps the syntactic frame mentions but no path modifies
 		for h := range sub.funcModSet(fi, 0).heaps {
 			if !cand[h] {
-				out[h] = true
+				out[h] = frameFull
 			}
 		}
 	}()
 	frameMemo[fi.Key] = out
 	if os.Getenv("GOVC_HOUDINI") != "" {
 		var ks []string
-		for k := range out {
+		for k, v := range out {
+			if v == frameParams {
+				k += "(params)"
+			}
 			ks = append(ks, k)
 		}
 		sort.Strings(ks)
-		fmt.Fprintf(os.Stderr, "frame-infer %s preserves %v\n", fi.Key, ks)
+		fmt.Fprintf(os.Stderr, "frame-infer %s preserves %v\n", fi.Key, trunc(fmt.Sprint(ks), 600))
 	}
 	return out
 }
+
+// preservedHeaps: the heaps fi preserves entirely (kept for callers that need only that).
+func (ex *Exec) preservedHeaps(fi *FuncInfo) map[string]bool {
+	out := map[string]bool{}
+	for h, k := range ex.inferredFrames(fi) {
+		if k == frameFull {
+			out[h] = true
+		}
+	}
+	return out
+}
+
+// assumeInferredFrames: after the heaps of ms were havocked for a call to fi, re-establish what
+// fi's inferred frames guarantee. before: the heap terms before the havoc; handed: the actual
+// receiver and arguments.
+func (ex *Exec) assumeInferredFrames(st *State, fi *FuncInfo, ms *ModSet, before map[string]*Term, ctrBefore *Term, handed []Val) {
+	fr := ex.inferredFrames(fi)
+	refs := handedRefs(handed)
+	for _, h := range ms.heapNames() {
+		k := fr[h]
+		if k == frameNone {
+			continue
+		}
+		cur := st.heapGet(h, ms.heaps[h])
+		if cur == before[h] || before[h] == nil {
+			continue
+		}
+		r := BVar("r", SInt)
+		cond := []*Term{Lt(r, ctrBefore)}
+		if k == frameParams {
+			for _, p := range refs {
+				cond = append(cond, Neq(r, p))
+			}
+		}
+		st.assume(Forall([]*Term{r}, Implies(And(cond...), Eq(Select(cur, r), Select(before[h], r))), []*Term{Select(cur, r)}))
+	}
+}
+
+var _ = types.Typ
